@@ -215,14 +215,14 @@ Section NewDataFormulas.
 
   Definition isqrtS : 'M[F]_k := diag_mx (\row_i (Num.sqrt (S i ord0))^-1).
 
-  Lemma sqrtS_isqrtS : (forall i, 0 < S i ord0) -> sqrtS env k *m isqrtS = 1%:M.
+  Lemma sqrtS_isqrtS : (forall i, 0 < S i ord0) -> sqrtS k env *m isqrtS = 1%:M.
   Proof.
     move=> hS; rewrite /sqrtS /isqrtS mul_diag_mx; apply/matrixP => i j; rewrite !mxE.
     case: (i == j); rewrite ?mulr0n ?mulr0 // !mulr1n divff //.
     by rewrite gt_eqF // sqrtr_gt0.
   Qed.
 
-  Lemma isqrtS_sqrtS : (forall i, 0 < S i ord0) -> isqrtS *m sqrtS env k = 1%:M.
+  Lemma isqrtS_sqrtS : (forall i, 0 < S i ord0) -> isqrtS *m sqrtS k env = 1%:M.
   Proof.
     move=> hS; rewrite /sqrtS /isqrtS mul_diag_mx; apply/matrixP => i j; rewrite !mxE.
     case: (i == j); rewrite ?mulr0n ?mulr0 // !mulr1n mulVf //.
@@ -230,7 +230,7 @@ Section NewDataFormulas.
   Qed.
 
   (* with the guard passed, the code's sqrt(1/s) is 1/sqrt(s) *)
-  Lemma Dmx_isqrtS : 0 <= tol -> (forall i, tol < S i ord0) -> Dmx env k = isqrtS.
+  Lemma Dmx_isqrtS : 0 <= tol -> (forall i, tol < S i ord0) -> Dmx k env = isqrtS.
   Proof.
     move=> t0 hS; rewrite /Dmx /isqrtS; congr diag_mx; apply/rowP => i; rewrite !mxE /isq hS.
     by rewrite sqrtrV // ltW //; apply: le_lt_trans (hS i).
@@ -238,13 +238,13 @@ Section NewDataFormulas.
 
   (* the pseudo-inverse of V sqrt(S) for orthonormal V and positive S *)
   Lemma penrose_VS : V^T *m V = 1%:M -> (forall i, 0 < S i ord0) ->
-    penrose (V *m sqrtS env k) (isqrtS *m V^T).
+    penrose (V *m sqrtS k env) (isqrtS *m V^T).
   Proof.
     move=> hV hS.
-    have e1 : isqrtS *m V^T *m (V *m sqrtS env k) = 1%:M.
+    have e1 : isqrtS *m V^T *m (V *m sqrtS k env) = 1%:M.
       by rewrite -mulmxA [V^T *m _]mulmxA hV mul1mx isqrtS_sqrtS.
-    have e2 : V *m sqrtS env k *m (isqrtS *m V^T) = V *m V^T.
-      by rewrite -mulmxA [sqrtS env k *m _]mulmxA sqrtS_isqrtS // mul1mx.
+    have e2 : V *m sqrtS k env *m (isqrtS *m V^T) = V *m V^T.
+      by rewrite -mulmxA [sqrtS k env *m _]mulmxA sqrtS_isqrtS // mul1mx.
     split.
     - by rewrite -mulmxA e1 mulmx1.
     - by rewrite e1 mul1mx.
@@ -267,7 +267,7 @@ Section NewDataFormulas.
 
   Lemma transform_formula :
     eval_mx env (transform_prog n p k v)
-    = Kt *m ((a *: 1%:M + (1 - a) *: (W *m Yh^T)) *m V *m Dmx env k).
+    = Kt *m ((a *: 1%:M + (1 - a) *: (W *m Yh^T)) *m V *m Dmx k env).
   Proof.
     have -> : eval_mx env (transform_prog n p k v) = Kt *m eval_mx env (pkt_prog n p k) by [].
     by rewrite pkt_formula.
@@ -275,7 +275,7 @@ Section NewDataFormulas.
 
   Lemma predict_formula :
     eval_mx env (predict_prog n p k v)
-    = Kt *m ((a *: 1%:M + (1 - a) *: (W *m Yh^T)) *m V *m Dmx env k *m (PT *m Y)).
+    = Kt *m ((a *: 1%:M + (1 - a) *: (W *m Yh^T)) *m V *m Dmx k env *m (PT *m Y)).
   Proof.
     have -> : eval_mx env (predict_prog n p k v)
               = Kt *m (eval_mx env (pkt_prog n p k) *m (PT *m Y)) by [].
@@ -295,7 +295,7 @@ Section NewDataFormulas.
   Definition Emx : 'M[F]_k :=
     diag_mx (\row_i (if tol < S i ord0 then (Num.sqrt (S i ord0))^-1 else 0)).
 
-  Lemma Dmx_Emx : Dmx env k = Emx.
+  Lemma Dmx_Emx : Dmx k env = Emx.
   Proof.
     rewrite /Dmx /Emx; congr diag_mx; apply/rowP => i; rewrite !mxE /isq.
     case: (tol < S i ord0); last by rewrite sqrtr0.
@@ -342,7 +342,7 @@ Section NewDataFormulas.
   Hypothesis hWx : Wx = X^T *m W.
 
   Lemma linear_ktilde : eval_mx env (ktilde_prog n p) = eval_mx env (pc_ktilde n d p).
-  Proof. by rewrite ktilde_formula pc_ktilde_formula hK. Qed.
+  Proof. by rewrite ktilde_formula pc_ktilde_formula -/K hK. Qed.
 
   Lemma linear_P : Kt *m (a *: 1%:M + (1 - a) *: (W *m Yh^T))
                    = Xt *m (a *: X^T + (1 - a) *: (Wx *m Yh^T)).
@@ -356,8 +356,7 @@ Section NewDataFormulas.
   Lemma linear_transform :
     eval_mx env (transform_prog n p k v) = eval_mx env (@pc_transform n d p k v).
   Proof.
-    rewrite transform_formula pc_transform_formula Dmx_Emx !mulmxA linear_P.
-    by rewrite !mulmxA.
+    by rewrite transform_formula pc_transform_formula Dmx_Emx !mulmxA linear_P.
   Qed.
 
   (* same predictions: pt__ = pinv(T) is S^{-1/2} V^T, which is sample-space PCovR's T^T *)
@@ -375,3 +374,317 @@ Section NewDataFormulas.
     by rewrite !mulmxA.
   Qed.
 End NewDataFormulas.
+
+(* ---- score ------------------------------------------------------------------------------------- *)
+Section ScoreFormulas.
+  Variable F : rcfType.
+  Variables (n p k : nat) (env : env_mx F).
+  Let K : 'M[F]_n := env n n vK.
+  Let G : 'M[F]_k := env k k vG.
+  Let tn : 'M[F]_(n, k) := eval_mx env (tn_prog n p k).
+
+  Lemma proj_trace (t : 'M[F]_(n, k)) (G0 : 'M[F]_k) (K0 : 'M[F]_n) :
+    penrose (t^T *m t) G0 ->
+    let w := t *m G0 *m t^T in
+    \tr (K0 - 2%:R *: (K0 *m w) + w^T *m K0 *m w) = \tr (K0 - K0 *m w).
+  Proof.
+    move=> hG w.
+    have sG : G0^T = G0 by apply: penrose_sym hG; rewrite trmx_mul trmxK.
+    have sw : w^T = w by rewrite /w !trmx_mul trmxK sG mulmxA.
+    have iw : w *m w = w.
+      case: hG => _ g2 _ _.
+      have -> : w *m w = t *m (G0 *m (t^T *m t) *m G0) *m t^T by rewrite /w !mulmxA.
+      by rewrite g2.
+    rewrite sw !mxtraceD !linearN /= mxtraceZ -[w *m K0 *m w]mulmxA [\tr (w *m (K0 *m w))]mxtrace_mulC -[K0 *m w *m w]mulmxA iw.
+    rewrite -addrA; congr (_ + _).
+    by rewrite mulr_natl mulr2n opprD addrNK.
+  Qed.
+
+  Lemma two_val : (eval_mx env c2) ord0 ord0 = 2%:R :> F.
+  Proof. by rewrite /= !mxE /= mulr1n Pnat.Pos2Nat.inj_xO. Qed.
+
+  Lemma score_train :
+    env n n vKt = K -> env n n vKvv = K ->
+    penrose (tn^T *m tn) G ->
+    eval_mx env (score_prog n p k n) = eval_mx env (score_train_prog n p k).
+  Proof.
+    move=> hKt hKvv hG.
+    have ew : eval_mx env (w_prog n p k n) = tn *m G *m tn^T.
+      by rewrite /tn /w_prog /tn_prog /transform_prog /= hKt.
+    have ewt : eval_mx env (w_train n p k) = tn *m G *m tn^T by [].
+    have el : eval_mx env (lkrr_prog n p k n) = eval_mx env (lkrr_train n p k).
+      by rewrite /lkrr_prog /lkrr_train /predict_prog /= hKt.
+    have -> : eval_mx env (score_prog n p k n)
+      = map_mx (sfun_mx Fneg ((eval_mx env c1) ord0 ord0))
+          (0 + (\tr (env n n vKvv - (eval_mx env c2) ord0 ord0 *: (env n n vKt *m eval_mx env (w_prog n p k n))
+                     + (eval_mx env (w_prog n p k n))^T *m K *m eval_mx env (w_prog n p k n)))%:M
+               *m map_mx (sfun_mx Frecip ((eval_mx env c1) ord0 ord0)) (\tr (env n n vKvv))%:M
+             + eval_mx env (lkrr_prog n p k n)) by [].
+    have -> : eval_mx env (score_train_prog n p k)
+      = map_mx (sfun_mx Fneg ((eval_mx env c1) ord0 ord0))
+          (0 + (\tr (K - K *m eval_mx env (w_train n p k)))%:M
+               *m map_mx (sfun_mx Frecip ((eval_mx env c1) ord0 ord0)) (\tr K)%:M
+             + eval_mx env (lkrr_train n p k)) by [].
+    by rewrite el ew ewt hKt hKvv two_val proj_trace.
+  Qed.
+End ScoreFormulas.
+
+(* ---- shapes ------------------------------------------------------------------------------------ *)
+Section Shapes.
+  (* a typed expression always passes the shape checker, with its own type *)
+  Lemma rshape_erase m n (e : mexp m n) : rshape (erase e) = Some (m, n).
+  Proof.
+    elim: e => //=.
+    - by move=> a b e1 -> e2 ->; rewrite /same /shape_eqb /= !PeanoNat.Nat.eqb_refl.
+    - by move=> a b e1 -> e2 ->; rewrite /same /shape_eqb /= !PeanoNat.Nat.eqb_refl.
+    - by move=> a b c e1 -> e2 ->; rewrite PeanoNat.Nat.eqb_refl.
+    - by move=> a b e1 -> e2 ->.
+    - by move=> a b e1 ->.
+    - by move=> a e1 ->.
+    - by move=> a e1 ->; rewrite PeanoNat.Nat.eqb_refl.
+    - by move=> a b f e1 -> e2 ->.
+    - by move=> a b e1 -> e2 ->; rewrite /same /shape_eqb /= !PeanoNat.Nat.eqb_refl.
+    - by move=> a e1 ->; rewrite PeanoNat.Nat.eqb_refl.
+  Qed.
+
+  Variables n p k v : nat.
+
+  (* the documented formula is the typed program *)
+  Lemma raw_score_doc_typed : raw_score_doc n p k v = erase (score_prog n p k v).
+  Proof. by []. Qed.
+
+  Lemma score_doc_shapes : rshape (raw_score_doc n p k v) = Some (1%N, 1%N).
+  Proof. by rewrite raw_score_doc_typed rshape_erase. Qed.
+
+  (* the formula of the code before the repair: the product w^T K_VV w is ill-formed unless
+     n_V = n_N *)
+  Definition raw_score_gen (w lk B : rexp) : rexp :=
+    RMap Fneg (RConst (BinNums.Zpos BinNums.xH))
+      (RAdd (RAdd (RZero 1%N 1%N)
+               (RMul (RTrace (RAdd (RSub (rKvv v) (RScale (RConst (BinNums.Zpos (BinNums.xO BinNums.xH))) (RMul (rKt n v) w)))
+                                   (RMul (RMul (RTr w) B) w)))
+                     (RMap Frecip (RConst (BinNums.Zpos BinNums.xH)) (RTrace (rKvv v)))))
+            lk).
+
+  Lemma raw_score_gen_code w lk :
+    rshape w = Some (n, v) -> rshape lk = Some (1%N, 1%N) ->
+    rshape (raw_score_gen w lk (rKvv v)) = if PeanoNat.Nat.eqb n v then Some (1%N, 1%N) else None.
+  Proof.
+    move=> hw hl; rewrite /raw_score_gen /rKvv /rKt /= hw hl /= !PeanoNat.Nat.eqb_refl /=.
+    rewrite /same /shape_eqb /= !PeanoNat.Nat.eqb_refl /=.
+    case E: (PeanoNat.Nat.eqb n v) => //=.
+    by rewrite PeanoNat.Nat.eqb_sym E /=; do 4?[rewrite !PeanoNat.Nat.eqb_refl /=].
+  Qed.
+
+  Lemma score_code_before_fix_shapes :
+    rshape (raw_score_code_before_fix n p k v) = if PeanoNat.Nat.eqb n v then Some (1%N, 1%N) else None.
+  Proof.
+    have -> : raw_score_code_before_fix n p k v
+              = raw_score_gen (rw n p k v) (erase (lkrr_prog n p k v)) (rKvv v) by [].
+    by apply: raw_score_gen_code; rewrite rshape_erase.
+  Qed.
+End Shapes.
+
+(* ---- centring (KernelNormalizer) ----------------------------------------------------------------- *)
+Ltac sidec := unfold vK, vKt, vKvv in *; intuition (try discriminate; try congruence).
+Section Center.
+  Variable F : rcfType.
+  Variable n : nat.
+  Let nn : F := n%:R.
+
+  (* KernelNormalizer fitted on Kr (with_center, with_trace, no sample weights), in matrix form *)
+  Definition kn_rows (Kr : 'M[F]_n) : 'rV[F]_n := nn^-1 *: (const_mx 1 *m Kr).
+  Definition kn_all (Kr : 'M[F]_n) : F := nn^-1 * (kn_rows Kr *m (const_mx 1 : 'cV[F]_n)) ord0 ord0.
+  Definition kn_rmeans m (M : 'M[F]_(m, n)) : 'cV[F]_m := nn^-1 *: (M *m const_mx 1).
+  Definition kn_cen (Kr : 'M[F]_n) m (M : 'M[F]_(m, n)) : 'M[F]_(m, n) :=
+    M - const_mx 1 *m kn_rows Kr - kn_rmeans M *m const_mx 1 + kn_all Kr *: const_mx 1.
+  Definition kn_scale (Kr : 'M[F]_n) : F := nn^-1 * \tr (kn_cen Kr Kr).
+  (* KernelNormalizer.transform *)
+  Definition knorm_mx (Kr : 'M[F]_n) m (M : 'M[F]_(m, n)) : 'M[F]_(m, n) :=
+    (kn_scale Kr)^-1 *: kn_cen Kr M.
+  (* the V x V block, centred on the training means on both sides *)
+  Definition knorm_vv_mx (Kr : 'M[F]_n) v (Kvn : 'M[F]_(v, n)) (Kvv : 'M[F]_v) : 'M[F]_v :=
+    (kn_scale Kr)^-1 *: (Kvv - kn_rmeans Kvn *m const_mx 1 - const_mx 1 *m (kn_rmeans Kvn)^T
+                         + kn_all Kr *: const_mx 1).
+
+  Variable env : env_mx F.
+
+  Lemma invn_val : (eval_mx env (invn n)) ord0 ord0 = nn^-1.
+  Proof. by rewrite /= !mxE /= mulr1n Z2F_nat. Qed.
+
+  Lemma kfit_rows_formula (Kr : mexp n n) :
+    eval_mx env (kfit_rows n Kr) = kn_rows (eval_mx env Kr).
+  Proof.
+    have -> : eval_mx env (kfit_rows n Kr)
+              = (eval_mx env (invn n)) ord0 ord0 *: (const_mx 1 *m eval_mx env Kr) by [].
+    by rewrite invn_val.
+  Qed.
+
+  Lemma kfit_all_formula (Kr : mexp n n) :
+    (eval_mx env (kfit_all n Kr)) ord0 ord0 = kn_all (eval_mx env Kr).
+  Proof.
+    have -> : eval_mx env (kfit_all n Kr)
+              = (eval_mx env (invn n)) ord0 ord0 *: (eval_mx env (kfit_rows n Kr) *m const_mx 1) by [].
+    by rewrite invn_val kfit_rows_formula mxE.
+  Qed.
+
+  Lemma rowmeans_formula m (M : mexp m n) :
+    eval_mx env (rowmeans n M) = kn_rmeans (eval_mx env M).
+  Proof.
+    have -> : eval_mx env (rowmeans n M)
+              = (eval_mx env (invn n)) ord0 ord0 *: (eval_mx env M *m const_mx 1) by [].
+    by rewrite invn_val.
+  Qed.
+
+  Lemma cen_formula (Kr : mexp n n) m (M : mexp m n) :
+    eval_mx env (cen n Kr M) = kn_cen (eval_mx env Kr) (eval_mx env M).
+  Proof.
+    have -> : eval_mx env (cen n Kr M)
+              = eval_mx env M - const_mx 1 *m eval_mx env (kfit_rows n Kr)
+                - eval_mx env (rowmeans n M) *m const_mx 1
+                + (eval_mx env (kfit_all n Kr)) ord0 ord0 *: const_mx 1 by [].
+    by rewrite kfit_rows_formula rowmeans_formula kfit_all_formula.
+  Qed.
+
+  Lemma kscale_formula (Kr : mexp n n) :
+    (eval_mx env (kscale n Kr)) ord0 ord0 = kn_scale (eval_mx env Kr).
+  Proof.
+    have -> : eval_mx env (kscale n Kr)
+              = (eval_mx env (invn n)) ord0 ord0 *: (\tr (eval_mx env (cen n Kr Kr)))%:M by [].
+    by rewrite invn_val cen_formula !mxE eqxx mulr1n.
+  Qed.
+
+  Lemma knorm_formula (Kr : mexp n n) m (M : mexp m n) :
+    eval_mx env (knorm n Kr M) = knorm_mx (eval_mx env Kr) (eval_mx env M).
+  Proof.
+    have -> : eval_mx env (knorm n Kr M)
+              = (map_mx (sfun_mx Frecip ((eval_mx env c1) ord0 ord0)) (eval_mx env (kscale n Kr))) ord0 ord0
+                *: eval_mx env (cen n Kr M) by [].
+    by rewrite cen_formula mxE /sfun_mx kscale_formula.
+  Qed.
+
+  Lemma knorm_vv_formula (Kr : mexp n n) v (Kvn : mexp v n) (Kvv : mexp v v) :
+    eval_mx env (knorm_vv n Kr Kvn Kvv)
+    = knorm_vv_mx (eval_mx env Kr) (eval_mx env Kvn) (eval_mx env Kvv).
+  Proof.
+    have -> : eval_mx env (knorm_vv n Kr Kvn Kvv)
+              = (map_mx (sfun_mx Frecip ((eval_mx env c1) ord0 ord0)) (eval_mx env (kscale n Kr))) ord0 ord0
+                *: (eval_mx env Kvv - eval_mx env (rowmeans n Kvn) *m const_mx 1
+                    - const_mx 1 *m (eval_mx env (rowmeans n Kvn))^T
+                    + (eval_mx env (kfit_all n Kr)) ord0 ord0 *: const_mx 1) by [].
+    by rewrite rowmeans_formula kfit_all_formula mxE /sfun_mx kscale_formula.
+  Qed.
+
+  (* center=True is the same program run on the explicitly normalised blocks *)
+  Lemma center_is_normalizer v (env' : env_mx F) a b (e : mexp a b) :
+    env' n n vK = knorm_mx (env n n vK) (env n n vK) ->
+    env' v n vKt = knorm_mx (env n n vK) (env v n vKt) ->
+    env' v v vKvv = knorm_vv_mx (env n n vK) (env v n vKt) (env v v vKvv) ->
+    (forall r c x, ~ (r = n /\ c = n /\ x = vK) -> ~ (r = v /\ c = n /\ x = vKt) ->
+                   ~ (r = v /\ c = v /\ x = vKvv) -> env' r c x = env r c x) ->
+    eval_mx env (msubst (s_center n v) e) = eval_mx env' e.
+  Proof.
+    move=> h1 h2 h3 h4; rewrite msubst_mx; apply: eval_mx_ext => r c x.
+    have side : forall P : Prop, (P -> False) -> ~ P by [].
+    rewrite /s_center.
+    case: (PeanoNat.Nat.eq_dec x vK) => [->|nK].
+      case: (PeanoNat.Nat.eq_dec r n) => [->|nr]; last first.
+        rewrite sub1_other_shape; last by sidec.
+        rewrite sub1_other_var // sub1_other_var // h4 //; by sidec.
+      case: (PeanoNat.Nat.eq_dec c n) => [->|nc]; last first.
+        rewrite sub1_other_shape; last by sidec.
+        rewrite sub1_other_var // sub1_other_var // h4 //; by sidec.
+      by rewrite sub1_same knorm_formula h1.
+    rewrite sub1_other_var; last by apply/PeanoNat.Nat.eqb_neq => e0; apply: nK.
+    case: (PeanoNat.Nat.eq_dec x vKt) => [->|nKt].
+      case: (PeanoNat.Nat.eq_dec r v) => [->|nr]; last first.
+        rewrite sub1_other_shape; last by sidec.
+        rewrite sub1_other_var // h4 //; by sidec.
+      case: (PeanoNat.Nat.eq_dec c n) => [->|nc]; last first.
+        rewrite sub1_other_shape; last by sidec.
+        rewrite sub1_other_var // h4 //; by sidec.
+      by rewrite sub1_same knorm_formula h2.
+    rewrite sub1_other_var; last by apply/PeanoNat.Nat.eqb_neq => e0; apply: nKt.
+    case: (PeanoNat.Nat.eq_dec x vKvv) => [->|nKvv].
+      case: (PeanoNat.Nat.eq_dec r v) => [->|nr]; last first.
+        rewrite sub1_other_shape; last by sidec.
+        rewrite h4 //; by sidec.
+      case: (PeanoNat.Nat.eq_dec c v) => [->|nc]; last first.
+        rewrite sub1_other_shape; last by sidec.
+        rewrite h4 //; by sidec.
+      by rewrite sub1_same knorm_vv_formula h3.
+    rewrite sub1_other_var; last by apply/PeanoNat.Nat.eqb_neq => e0; apply: nKvv.
+    by rewrite h4 //; sidec.
+  Qed.
+End Center.
+
+(* ---- what the normalised blocks mean in feature space --------------------------------------------- *)
+Section FeatureSpace.
+  Variable F : rcfType.
+  Variables (n d : nat).
+  Variable (Phi : 'M[F]_(n, d)).
+  Let nn : F := n%:R.
+  Let mu : 'rV[F]_d := nn^-1 *: (const_mx 1 *m Phi).
+  Let K := Phi *m Phi^T.
+
+  Lemma fs_rmeans m (A : 'M[F]_(m, d)) : A *m mu^T = kn_rmeans (A *m Phi^T).
+  Proof. by rewrite /mu /kn_rmeans linearZ /= trmx_mul trmx_const -scalemxAr !mulmxA. Qed.
+
+  Lemma fs_rows : mu *m Phi^T = kn_rows K.
+  Proof. by rewrite /mu /kn_rows -scalemxAl -mulmxA. Qed.
+
+  Lemma fs_all : mu *m mu^T = (kn_all K)%:M.
+  Proof.
+    rewrite [LHS]mx11_scalar; congr (_%:M).
+    rewrite /kn_all -fs_rows {2}/mu linearZ /= trmx_mul trmx_const -scalemxAr mxE.
+    by rewrite !mulmxA.
+  Qed.
+
+  Lemma fs_block a b (A : 'M[F]_(a, d)) (B : 'M[F]_(b, d)) :
+    (A - const_mx 1 *m mu) *m (B - const_mx 1 *m mu)^T
+    = A *m B^T - const_mx 1 *m (mu *m B^T) - (A *m mu^T) *m const_mx 1
+      + kn_all K *: const_mx 1.
+  Proof.
+    rewrite [(_ - _)^T]linearB /= trmx_mul trmx_const mulmxBr !mulmxBl.
+    rewrite opprB addrA -!mulmxA [mu *m (mu^T *m _)]mulmxA fs_all.
+    rewrite mul_scalar_mx -scalemxAr [A *m (_ *m _)]mulmxA addrAC; congr (_ + _ *: _).
+    by apply/matrixP => i j; rewrite !mxE big_ord1 !mxE mul1r.
+  Qed.
+
+  (* the normalised blocks are the Gram blocks of the centred, scaled features *)
+  Lemma fs_cen m (A : 'M[F]_(m, d)) :
+    kn_cen K (A *m Phi^T) = (A - const_mx 1 *m mu) *m (Phi - const_mx 1 *m mu)^T.
+  Proof. by rewrite fs_block fs_rows fs_rmeans /kn_cen. Qed.
+
+  Lemma fs_vv v (PhiV : 'M[F]_(v, d)) :
+    PhiV *m PhiV^T - kn_rmeans (PhiV *m Phi^T) *m const_mx 1
+      - const_mx 1 *m (kn_rmeans (PhiV *m Phi^T))^T + kn_all K *: const_mx 1
+    = (PhiV - const_mx 1 *m mu) *m (PhiV - const_mx 1 *m mu)^T.
+  Proof.
+    rewrite fs_block -fs_rmeans trmx_mul trmxK.
+    by congr (_ + _); rewrite addrAC.
+  Qed.
+End FeatureSpace.
+
+(* ---- mixing = 1 on a centred, scaled kernel: kernel PCA up to the normaliser's scale ------------- *)
+Section KPCAScale.
+  Variable F : rcfType.
+  Variables (n p k : nat) (env : env_mx F).
+  Let K : 'M[F]_n := env n n vK.
+  Let a : F := (env 1%N 1%N va) ord0 ord0.
+  Let V : 'M[F]_(n, k) := env n k vV.
+  Let S : 'cV[F]_k := env k 1%N vS.
+  Let tol : F := (env 1%N 1%N vtol) ord0 ord0.
+
+  Lemma kpca_scaled (Kc : 'M[F]_n) (lam : 'cV[F]_k) (s : F) :
+    0 < s -> K = s^-1 *: Kc -> Kc *m V = V *m diag_mx lam^T -> S = s^-1 *: lam ->
+    a = 1 -> 0 <= tol -> (forall i, tol < S i ord0) ->
+    eval_mx env (T_prog n p k) = (Num.sqrt s)^-1 *: (V *m diag_mx (\row_i Num.sqrt (lam i ord0))).
+  Proof.
+    move=> s0 hK hE hS a1 t0 hpos.
+    have hE' : K *m V = V *m diag_mx S^T.
+      by rewrite hK -scalemxAl hE hS linearZ /= linearZ /= -scalemxAr.
+    rewrite (@T_eigen_a1 F n p k env a1 hE' t0 hpos) /sqrtS scalemxAr -linearZ /=; congr (_ *m diag_mx _).
+    apply/rowP => i; rewrite !mxE -/S hS !mxE sqrtrM ?invr_ge0 ?ltW // sqrtrV // ltW //.
+  Qed.
+End KPCAScale.
